@@ -276,7 +276,10 @@ func c07Scenarios() []sched.Scenario {
 					case "T":
 						tick()
 					case "A":
-						vclock.Advance(safeAge + time.Second)
+						// WAL file modification times are REAL (file system) while the purge compares them with the
+						// virtual clock: stay an hour away from the safe-age boundary so that the real time an
+						// execution takes on a loaded machine can never decide the comparison
+						vclock.Advance(safeAge + time.Hour)
 					case "R":
 						if sys.walW != nil {
 							sys.walW.VerifRotate()
